@@ -244,7 +244,55 @@ fn wide_pass(run: &Run) {
     );
 }
 
+/// "a sign waiting for its consonant ... is discarded by one backspace" - also when it waits in the MIDDLE of a conjunct:
+/// left-standing sign, consonant, hasanta (the sign is lifted off the consonant and waits again), one backspace: the
+/// text is unchanged, the sign is gone (the next consonant comes without it), the session is still open.
+fn waiting_sign_inside_a_conjunct(run: &Run) {
+    let inv = layout_inverse(Layout::Synthetic);
+    let k = |v: &str| -> K { *inv.get(v).unwrap_or_else(|| panic!("synthetic layout lacks {v:?}")) };
+    let mut cons: Vec<(String, K)> = inv.iter().filter(|(v, _)| v.chars().count() == 1 && v.chars().all(|c| model::is_consonant(c) && c != model::KHANDA_TA)).map(|(v, key)| (v.clone(), *key)).collect();
+    cons.sort();
+    let signs = [("\u{09BF}", k("\u{09BF}")), ("\u{09C7}", k("\u{09C7}")), ("\u{09C8}", k("\u{09C8}"))];
+    let (has, ka) = (k("\u{09CD}"), k("\u{0995}"));
+    let items: Vec<u32> = (0..8).collect();
+    run.exhaustive(
+        "waiting-sign-inside-a-conjunct-discarded-by-one-backspace",
+        &items,
+        |_| Sandbox::new(),
+        |&bits, st, sb| {
+            let pair = mk_pair(bits, sb)?;
+            for (cv, ck) in &cons {
+                for (sv, sk) in &signs {
+                    let case = || json!({"option_bits": bits, "waiting_sign_inside_conjunct": {"consonant": cv, "sign": sv}});
+                    let pf = |p: crate::driver::PanicInfo| Failure::new(panic_kind(&p), p.to_string(), case());
+                    pair.on.finish().map_err(pf)?;
+                    pair.off.finish().map_err(pf)?;
+                    let t1 = type_keys(&pair.on, &[*sk, *ck, has], &case)?;
+                    let want1 = type_keys(&pair.off, &[*ck, has], &case)?;
+                    if t1 != want1 {
+                        return Err(Failure::new("pending-sign-shown", format!("sign {sv:?}, {cv:?}, hasanta: pre-edit {t1:?}, expected {want1:?} (the sign waits for the rest of the conjunct)"), case()));
+                    }
+                    let b = pair.on.backspace(false).map_err(pf)?;
+                    if b.text != want1 || !pair.on.ongoing() {
+                        return Err(Failure::new("pending-sign-backspace", format!("one backspace with the sign {sv:?} waiting after {want1:?}: text {:?} ongoing={} (the backspace discards the waiting sign and nothing else)", b.text, pair.on.ongoing()), case()));
+                    }
+                    let t2 = type_keys(&pair.on, &[ka], &case)?;
+                    let want2 = type_keys(&pair.off, &[ka], &case)?;
+                    if t2 != want2 {
+                        return Err(Failure::new("pending-sign-backspace", format!("after the backspace discarded the waiting sign {sv:?}, the next consonant gives {t2:?}, expected {want2:?}"), case()));
+                    }
+                    st.evals(1);
+                    st.count("side-clause-checks", 1);
+                }
+            }
+            st.label("waiting-sign-inside-a-conjunct");
+            Ok(())
+        },
+    );
+}
+
 pub fn run(run: &Run) {
+    waiting_sign_inside_a_conjunct(run);
     wide_pass(run);
     let us = units();
     let n = us.len();
@@ -294,6 +342,23 @@ pub fn run(run: &Run) {
 
 pub fn replay(_run: &Run, case: &Value) -> Result<(), Failure> {
     let bits = case["option_bits"].as_u64().unwrap_or(0) as u32;
+    if let Some(w) = case.get("waiting_sign_inside_conjunct") {
+        let inv = layout_inverse(Layout::Synthetic);
+        let g = |v: &str| -> K { inv.get(v).copied().unwrap_or((0, 0)) };
+        let (ck, sk, has, ka) = (g(w["consonant"].as_str().unwrap_or_default()), g(w["sign"].as_str().unwrap_or_default()), g("\u{09CD}"), g("\u{0995}"));
+        let sb = Sandbox::new();
+        let pair = mk_pair(bits, &sb)?;
+        let c = || case.clone();
+        let t1 = type_keys(&pair.on, &[sk, ck, has], &c)?;
+        let want1 = type_keys(&pair.off, &[ck, has], &c)?;
+        let b = pair.on.backspace(false).map_err(|p| Failure::new(panic_kind(&p), p.to_string(), case.clone()))?;
+        let t2 = type_keys(&pair.on, &[ka], &c)?;
+        let want2 = type_keys(&pair.off, &[ka], &c)?;
+        if t1 != want1 || b.text != want1 || t2 != want2 {
+            return Err(Failure::new("pending-sign-backspace", format!("{t1:?}/{want1:?}, after backspace {:?}, next consonant {t2:?}/{want2:?}", b.text), case.clone()));
+        }
+        return Ok(());
+    }
     let word: Vec<usize> = serde_json::from_value(case["word"].clone()).unwrap_or_default();
     let sb = Sandbox::new();
     let pair = mk_pair(bits, &sb)?;
